@@ -186,28 +186,33 @@ func (s *Storage) StatBlobs(ctx context.Context, blobs []blob.Ref, fn func(blob.
 
 func (s *Storage) EnumerateBlobs(ctx context.Context, dest chan<- blob.SizedRef, after string, limit int) error {
 	defer close(dest)
-	s.mu.RLock()
-	defer s.mu.RUnlock()
 
+	// Snapshot under the lock, but don't hold it while sending: the
+	// receiver may need the lock itself (e.g. it fetches from this
+	// storage while some other goroutine waits to write), which
+	// would deadlock behind our read lock.
+	//
 	// TODO(bradfitz): care about keeping this sorted like we used
 	// to? I think it was more expensive than it was worth before,
 	// since maintaining it was more costly than how often it was
 	// used. But perhaps it'd make sense to maintain it lazily:
 	// construct it on EnumerateBlobs but invalidate it everywhere
 	// else.  Probably doesn't matter much.
-	sorted := make([]blob.Ref, 0, len(s.m))
-	for br := range s.m {
-		sorted = append(sorted, br)
+	s.mu.RLock()
+	sorted := make([]blob.SizedRef, 0, len(s.m))
+	for br, b := range s.m {
+		sorted = append(sorted, blob.SizedRef{Ref: br, Size: uint32(len(b))})
 	}
-	sort.Sort(blob.ByRef(sorted))
+	s.mu.RUnlock()
+	sort.Sort(blob.SizedByRef(sorted))
 
 	n := 0
-	for _, br := range sorted {
-		if after != "" && br.String() <= after {
+	for _, sb := range sorted {
+		if after != "" && sb.Ref.String() <= after {
 			continue
 		}
 		select {
-		case dest <- blob.SizedRef{Ref: br, Size: uint32(len(s.m[br]))}:
+		case dest <- sb:
 		case <-ctx.Done():
 			return ctx.Err()
 		}
